@@ -97,14 +97,95 @@ def _single_call(expr, param):
     return None
 
 
-def _isinstance_test(test, param, subclasses):
+def _kinds_of_test(test, param, subclasses):
+    """The set of CONCRETE kinds for which a test on the node's class holds, or None if it is not such a test.
+    Understood: isinstance(P, _ast.K) / isinstance(P, (_ast.K, _ast.L)), `not t`, `t and u`, `t or u`,
+    type(P) is / == _ast.K, P.__class__ is / == _ast.K (and their `is not` / `!=`)."""
+    every = set().union(*subclasses.values()) if subclasses else set()
+    if isinstance(test, ast.UnaryOp) and isinstance(test.op, ast.Not):
+        ks = _kinds_of_test(test.operand, param, subclasses)
+        return None if ks is None else every - ks
+    if isinstance(test, ast.BoolOp):
+        parts = [_kinds_of_test(v, param, subclasses) for v in test.values]
+        if any(x is None for x in parts):
+            return None
+        out = parts[0]
+        for x in parts[1:]:
+            out = (out & x) if isinstance(test.op, ast.And) else (out | x)
+        return out
     if (isinstance(test, ast.Call) and isinstance(test.func, ast.Name) and test.func.id == "isinstance" and len(test.args) == 2
             and isinstance(test.args[0], ast.Name) and test.args[0].id == param):
-        k = _ast_class(test.args[1])
-        if k is None or k not in subclasses:
-            raise Shape("isinstance against an unknown class")
-        return sorted(subclasses[k])
+        arg = test.args[1]
+        classes = arg.elts if isinstance(arg, ast.Tuple) else [arg]
+        out = set()
+        for c in classes:
+            k = _ast_class(c)
+            if k is None or k not in subclasses:
+                raise Shape("isinstance against an unknown class")
+            out |= subclasses[k]
+        return out
+    if isinstance(test, ast.Compare) and len(test.ops) == 1 and isinstance(test.ops[0], (ast.Is, ast.Eq, ast.IsNot, ast.NotEq)):
+        left, right = test.left, test.comparators[0]
+        is_cls = ((isinstance(left, ast.Call) and isinstance(left.func, ast.Name) and left.func.id == "type" and len(left.args) == 1
+                   and isinstance(left.args[0], ast.Name) and left.args[0].id == param)
+                  or (isinstance(left, ast.Attribute) and left.attr == "__class__" and isinstance(left.value, ast.Name) and left.value.id == param))
+        k = _ast_class(right)
+        if is_cls and k is not None:
+            if k not in subclasses:
+                raise Shape("class comparison against an unknown class")
+            exact = {k} & every
+            return exact if isinstance(test.ops[0], (ast.Is, ast.Eq)) else every - exact
     return None
+
+
+def _isinstance_test(test, param, subclasses):
+    ks = _kinds_of_test(test, param, subclasses)
+    return None if ks is None else sorted(ks)
+
+
+def _tail_call(expr, param):
+    """self.m(P) -> m"""
+    if (isinstance(expr, ast.Call) and _self_method(expr.func) and len(expr.args) == 1 and not expr.keywords
+            and isinstance(expr.args[0], ast.Name) and expr.args[0].id == param):
+        return _self_method(expr.func)
+    return None
+
+
+def _eval_dispatch(stmts, param, subclasses, kind, what):
+    """Which method an isinstance-cascade dispatcher calls for a node of concrete kind `kind`
+    (`kind=None`: a class none of the tests knows). Returns the method name, or None when control falls through."""
+    for st in stmts:
+        if isinstance(st, ast.Return):
+            m = _tail_call(st.value, param)
+            if m is None:
+                raise Shape("%s: unsupported dispatcher return at line %d" % (what, st.lineno))
+            return m
+        if isinstance(st, ast.If):
+            ks = _kinds_of_test(st.test, param, subclasses)
+            if ks is None:
+                raise Shape("%s: unsupported dispatcher test at line %d" % (what, st.lineno))
+            # for the unknown class every positive test is false
+            branch = st.body if (kind is not None and kind in ks) or (kind is None and _negative(st.test)) else st.orelse
+            r = _eval_dispatch(branch, param, subclasses, kind, what)
+            if r is not None:
+                return r
+            continue
+        if isinstance(st, ast.Pass):
+            continue
+        raise Shape("%s: unsupported dispatcher statement %s at line %d" % (what, type(st).__name__, st.lineno))
+    return None
+
+
+def _negative(test):
+    """does the test hold for a class that none of the named classes matches?"""
+    if isinstance(test, ast.UnaryOp) and isinstance(test.op, ast.Not):
+        return not _negative(test.operand)
+    if isinstance(test, ast.BoolOp):
+        vals = [_negative(v) for v in test.values]
+        return all(vals) if isinstance(test.op, ast.And) else any(vals)
+    if isinstance(test, ast.Compare):
+        return isinstance(test.ops[0], (ast.IsNot, ast.NotEq))
+    return False
 
 
 def _steps(stmts, param, subclasses, kinds, what):
@@ -145,7 +226,11 @@ def _steps(stmts, param, subclasses, kinds, what):
             t = st.test
             gattr = _attr_of(t, param)
             guard = "truthy" if gattr else None
-            if (guard is None and isinstance(t, ast.Compare) and len(t.ops) == 1 and isinstance(t.ops[0], ast.IsNot)
+            if (guard is None and isinstance(t, ast.UnaryOp) and isinstance(t.op, ast.Not) and isinstance(t.operand, ast.Compare)
+                    and len(t.operand.ops) == 1 and isinstance(t.operand.ops[0], (ast.Is, ast.Eq))
+                    and isinstance(t.operand.comparators[0], ast.Constant) and t.operand.comparators[0].value is None):
+                t = ast.Compare(left=t.operand.left, ops=[ast.IsNot()], comparators=t.operand.comparators)
+            if (guard is None and isinstance(t, ast.Compare) and len(t.ops) == 1 and isinstance(t.ops[0], (ast.IsNot, ast.NotEq))
                     and isinstance(t.comparators[0], ast.Constant) and t.comparators[0].value is None):
                 gattr = _attr_of(t.left, param)
                 guard = "notNone" if gattr else None
@@ -158,22 +243,17 @@ def _steps(stmts, param, subclasses, kinds, what):
                 inner[0]["guard"] = guard
                 out.append(inner[0])
                 continue
-            # (b) isinstance chain
-            seen = set()
-            cur = st
-            while True:
-                ks = _isinstance_test(cur.test, param, subclasses)
-                if ks is None:
-                    raise Shape("%s: unsupported if at line %d" % (what, cur.lineno))
-                eff = [k for k in ks if k not in seen and (kinds is None or k in kinds)]
-                seen.update(ks)
-                out.extend(_steps(cur.body, param, subclasses, eff, what))
-                if len(cur.orelse) == 1 and isinstance(cur.orelse[0], ast.If):
-                    cur = cur.orelse[0]
-                    continue
-                if cur.orelse:
-                    raise Shape("%s: isinstance chain with a final else at line %d" % (what, cur.lineno))
-                break
+            # (b) a test on the node's class: body for the kinds where it holds, orelse (elif / else) for the others
+            ks = _kinds_of_test(st.test, param, subclasses)
+            if ks is None:
+                raise Shape("%s: unsupported if at line %d" % (what, st.lineno))
+            every = set().union(*subclasses.values())
+            universe = sorted(every) if kinds is None else list(kinds)
+            out.extend(_steps(st.body, param, subclasses, [k for k in universe if k in ks], what))
+            if st.orelse:
+                out.extend(_steps(st.orelse, param, subclasses, [k for k in universe if k not in ks], what))
+            continue
+        if isinstance(st, ast.Pass):
             continue
         raise Shape("%s: unsupported statement %s at line %d" % (what, type(st).__name__, st.lineno))
     return out
@@ -256,20 +336,16 @@ def extract_table():
                     raise Shape("%s: dispatcher is not a classdispatch call" % fn.name)
                 dispatchers.append((fn.name, reg, None))
             else:
+                every = sorted(set().union(*subclasses.values()))
+                dflt = _eval_dispatch(body, p, subclasses, None, fn.name)
                 reg = []
-                for st in body[:-1]:
-                    ks = _isinstance_test(st.test, p, subclasses) if isinstance(st, ast.If) and not st.orelse else None
-                    if (ks is None or len(st.body) != 1 or not isinstance(st.body[0], ast.Return)):
-                        raise Shape("%s: unsupported dispatcher shape" % fn.name)
-                    sc = st.body[0].value
-                    if not (isinstance(sc, ast.Call) and _self_method(sc.func) and len(sc.args) == 1 and isinstance(sc.args[0], ast.Name) and sc.args[0].id == p):
-                        raise Shape("%s: unsupported dispatcher branch" % fn.name)
-                    reg += [(k, _self_method(sc.func)) for k in ks if k not in dict(reg)]
-                last = body[-1]
-                if not (isinstance(last, ast.Return) and isinstance(last.value, ast.Call) and _self_method(last.value.func)
-                        and len(last.value.args) == 1 and isinstance(last.value.args[0], ast.Name) and last.value.args[0].id == p):
-                    raise Shape("%s: unsupported dispatcher default" % fn.name)
-                dispatchers.append((fn.name, reg, _self_method(last.value.func)))
+                for k in every:
+                    m = _eval_dispatch(body, p, subclasses, k, fn.name)
+                    if m is None:
+                        raise Shape("%s: no method for %s" % (fn.name, k))
+                    if m != dflt:
+                        reg.append((k, m))
+                dispatchers.append((fn.name, reg, dflt))
         else:
             raise Shape("%s: unexpected decorators" % fn.name)
     if visit_dispatch is None:
@@ -319,6 +395,20 @@ def extract_table():
         raise Shape("a default DispatchingVisitor.enter_*/leave_* handler is no longer a no-op")
     return dict(methods=methods, dispatchers=dispatchers, visit=visit_dispatch, slots=slots_table(),
                 enter_registry=regs["enter"], leave_registry=regs["leave"])
+
+
+def get_table():
+    """static extraction; DYNAMIC fallback (observed by running the real visitor) when a shape is not recognised"""
+    import os
+    try:
+        if os.environ.get("C18_FORCE_DYNAMIC"):
+            raise Shape("forced by C18_FORCE_DYNAMIC (self-test of the fallback)")
+        t = extract_table()
+        t["mode"], t["reason"] = "static", ""
+        return t
+    except Shape as e:
+        from corr import C18_dynamic
+        return C18_dynamic.dynamic_table(slots_table(), reason="Shape: %s" % e)
 
 
 def snake(kind):
@@ -377,9 +467,12 @@ def to_lean(t):
     def target(x):
         return ("(.disp %s)" if x in disp_names else "(.method %s)") % _s(x)
 
+    mode = t.get("mode", "static")
     L = ["/- GENERATED on every run by harness/corr/C18_table.py from src/py_gql/lang/visitor.py and src/py_gql/lang/ast.py",
          "   (+ witness documents parsed by src/py_gql/lang/parser.py).",
-         "   Do not edit: the check rewrites this file from /repo's working tree. -/", "",
+         "   Do not edit: the check rewrites this file from /repo's working tree."] + ([
+         "   EXTRACTION MODE: dynamic (the static extractor did not recognise a shape; table observed by running the real visitor on one maximal instance per node class)."] if mode == "dynamic" else []) + [
+         "-/", "",
          "import PyGqlModel.Visit", "namespace PyGql.Generated.VisitTable", "open PyGql.Visit", ""]
     L.append("/-- `__slots__` (field order, `source` dropped) of every concrete node class of `lang/ast.py` -/")
     L.append("def slots : List (String × List String) := [")
